@@ -15,7 +15,8 @@ use crate::nodes::*;
 use crate::program::{Op, Program};
 use crate::rng::{pdu_bytes, Rng, H64};
 use crate::wire::{self, dec_exts, dec_table, enc_exts, enc_table, Desc, ExtTable, Kind, Lab, MExt, Parsed, LT_3, LT_6, LT_BCAST, LT_REUSE};
-use dvb_gse_rust::gse_decap::{DecapError, DecapMemoryError, DecapStatus, GetLabelorFragIdError, LabelorFragId};
+use dvb_gse_rust::crc::DefaultCrc;
+use dvb_gse_rust::gse_decap::{DecapError, DecapMemoryError, DecapStatus, Decapsulator, GetLabelorFragIdError, GseDecapMemory, LabelorFragId, SimpleGseMemory};
 use dvb_gse_rust::gse_encap::{ContextFrag, EncapError, Encapsulator};
 
 pub struct Flow;
@@ -99,6 +100,55 @@ fn absorb(rx: &mut RxNode, r: RxRes) {
     }
     let n = rx.app.len();
     rx.give_back(n);
+}
+
+/// Shadow receiver on the *bare* bundled types (no seam wrappers): what an application actually runs. The wrappers
+/// implement the crate's traits by delegation and cannot forward trait methods added later, so the same packets are
+/// also fed to this receiver and its answers must equal the wrapped receiver's.
+struct Bare {
+    dec: Decapsulator<SimpleGseMemory, DefaultCrc, TableManager>,
+    app: Vec<Box<[u8]>>,
+}
+
+impl Bare {
+    fn new(slots: usize, minsize: usize, table: ExtTable) -> Bare {
+        Bare { dec: Decapsulator::new(SimpleGseMemory::new(slots.max(1), minsize, 0, 0), DefaultCrc {}, TableManager { table }), app: vec![] }
+    }
+    fn provision(&mut self, size: usize) {
+        match self.dec.provision_storage(vec![0u8; size.max(1)].into_boxed_slice()) {
+            Ok(()) => {}
+            Err(DecapMemoryError::StorageOverflow(b)) | Err(DecapMemoryError::BufferTooSmall(b)) => self.app.push(b),
+            Err(_) => {}
+        }
+    }
+    fn decap(&mut self, bytes: &[u8]) -> RxRes {
+        let d = &mut self.dec;
+        match crate::core::guarded(|| d.decap(bytes)) {
+            Ok(Ok((s, n))) => RxRes::Ok(s, n),
+            Ok(Err((e, n))) => RxRes::Err(e, n),
+            Err((m, l)) => RxRes::Panic(m, l),
+        }
+    }
+    fn absorb(&mut self, r: RxRes) {
+        match r {
+            RxRes::Ok(DecapStatus::CompletedPkt(b, _), _) => self.app.push(b),
+            RxRes::Err(DecapError::ErrorMemory(DecapMemoryError::StorageOverflow(b)), _) | RxRes::Err(DecapError::ErrorMemory(DecapMemoryError::BufferTooSmall(b)), _) => self.app.push(b),
+            _ => {}
+        }
+        let n = self.app.len();
+        for _ in 0..n {
+            if let Some(b) = self.app.pop() {
+                match self.dec.provision_storage(b) {
+                    Ok(()) => {}
+                    Err(DecapMemoryError::StorageOverflow(b)) | Err(DecapMemoryError::BufferTooSmall(b)) => {
+                        self.app.push(b);
+                        break;
+                    }
+                    Err(_) => break,
+                }
+            }
+        }
+    }
 }
 
 fn per_packet_rejection(err: &str) -> bool {
@@ -195,8 +245,14 @@ impl Scenario for Flow {
         let txlog = txcrc.log.clone();
         let mut enc: Enc = Encapsulator::new(txcrc);
         let mut led = TxLedger::new();
-        let mut rx = RxNode::new(slots, maxpdu, table.clone(), keep_crc);
-        let mut walker = if mode == 1 { Some(RxNode::new(slots, maxpdu, table.clone(), false)) } else { None };
+        // minsize: the memory's configured minimum storage size (<= the size of the buffers actually provisioned)
+        let minsize = match p.cfg.get_u("minsize") as usize {
+            0 => maxpdu,
+            m => m.min(maxpdu),
+        };
+        let mut rx = RxNode::new(slots, minsize, table.clone(), keep_crc);
+        let mut walker = if mode == 1 { Some(RxNode::new(slots, minsize, table.clone(), false)) } else { None };
+        let mut bare = if mode == 0 && p.cfg.get_u("shadow") == 1 { Some(Bare::new(slots, minsize, table.clone())) } else { None };
         let mut accepted_bufs = 0usize;
         for _ in 0..nbuf {
             if let Ok(true) = rx.provision(maxpdu) {
@@ -204,6 +260,9 @@ impl Scenario for Flow {
             }
             if let Some(w) = walker.as_mut() {
                 let _ = w.provision(maxpdu);
+            }
+            if let Some(b) = bare.as_mut() {
+                b.provision(maxpdu);
             }
         }
         let mut walker_ok = true;
@@ -259,6 +318,18 @@ impl Scenario for Flow {
                     th.s(obs.class);
                     th.s(&obs.err);
                     ex.st.cov("transition", th.0);
+                }
+                if let Some(b) = bare.as_mut() {
+                    let rb = b.decap(pkt);
+                    ex.st.inc("lib_calls");
+                    let (ob, _) = observe(&rb);
+                    if ob != obs {
+                        let tgt: &'static str = crate::program::intern(ex.target);
+                        let v = Violation::new(tgt, "bare_receiver_differs", format!("{}:{}{}", hdr.map(|h| h.0.name()).unwrap_or("?"), ob.class, if ob.err.is_empty() { String::new() } else { format!(":{}", ob.err) }), format!("the receiver built on the bare SimpleGseMemory/DefaultCrc answers {} {} (consumed {}), the one behind the seam wrappers {} {} (consumed {}): the library behaves differently for an application than for the harness (e.g. through a trait method the wrappers do not forward)", ob.class, ob.err, ob.consumed, obs.class, obs.err, obs.consumed));
+                        let _ = ex.report(v);
+                        stop!();
+                    }
+                    b.absorb(rb);
                 }
                 if obs.class == "panic" {
                     ex.st.inc("aborted_by_panic");
@@ -447,6 +518,9 @@ impl Scenario for Flow {
                     enc.reset_last_label();
                     led.reset();
                     rx.reset();
+                    if let Some(b) = bare.as_mut() {
+                        b.dec.reset_last_label();
+                    }
                     ex.st.inc("label_resync_after_rejection");
                 }
                 // queue for the walker
@@ -606,6 +680,9 @@ impl Scenario for Flow {
                             enc.reset_last_label();
                             led.reset();
                             rx.reset();
+                            if let Some(b) = bare.as_mut() {
+                                b.dec.reset_last_label();
+                            }
                             continue;
                         }
                         _ => {
@@ -887,6 +964,9 @@ impl Scenario for Flow {
                         enc.reset_last_label();
                         led.reset();
                         rx.reset();
+                        if let Some(b) = bare.as_mut() {
+                            b.dec.reset_last_label();
+                        }
                     }
                     ex.st.inc("fault.stray");
                     ex.st.inc(match kind {
@@ -1018,6 +1098,9 @@ impl Scenario for Flow {
                     enc.reset_last_label();
                     led.reset();
                     rx.reset();
+                    if let Some(b) = bare.as_mut() {
+                        b.dec.reset_last_label();
+                    }
                 }
                 "enable" => {
                     enc.enable_re_use_label();
@@ -1242,7 +1325,12 @@ pub mod gen {
         Op::new("cont").u("fl", fl as u64).u("buf", buf as u64)
     }
     fn cfg(slots: usize, maxpdu: usize, nbuf: usize, mode: u64, table: &ExtTable) -> Op {
-        let mut o = Op::new("cfg").u("slots", slots as u64).u("maxpdu", maxpdu as u64).u("nbuf", nbuf as u64).u("mode", mode);
+        // shadow / minsize are drawn from the run's own parameters (no PRNG here): a third of the lock-step runs carry
+        // a shadow receiver on the bare types; the memory's minimum storage size is the buffer size, or well below it
+        let k = (slots * 7 + maxpdu * 13 + nbuf * 3) as u64;
+        let shadow = if mode == 0 && k % 3 == 0 { 1 } else { 0 };
+        let minsize = if k % 4 == 1 { (maxpdu / 3).max(1) } else { maxpdu };
+        let mut o = Op::new("cfg").u("slots", slots as u64).u("maxpdu", maxpdu as u64).u("nbuf", nbuf as u64).u("mode", mode).u("shadow", shadow).u("minsize", minsize as u64);
         if !table.entries.is_empty() {
             o = o.h("table", enc_table(table));
         }
@@ -1340,6 +1428,7 @@ pub mod gen {
             ops.push(Op::new("disable"));
         }
         let favourite = addr_label(rng);
+        let mut deferred = 0usize;
         for _ in 0..n {
             match rng.below(12) {
                 0 => ops.push(Op::new("frame")),
@@ -1369,9 +1458,20 @@ pub mod gen {
                     };
                     maxlen = maxlen.max(len);
                     ops.push(submit(len, rng.next(), ptype(rng), &lab, rng.below(256) as u8, buf, &[]));
-                    // finish a possible fragmentation quickly so that storage is released
-                    ops.push(cont(0, 4097));
-                    ops.push(cont(0, 4097));
+                    // finish a possible fragmentation (storage is released), usually at once, sometimes only after the
+                    // next packets (end fragments then arrive between complete packets of other labels)
+                    if rng.chance(3, 4) {
+                        ops.push(cont(0, 4097));
+                        ops.push(cont(0, 4097));
+                    } else {
+                        deferred += 2;
+                    }
+                    if deferred > 0 && rng.chance(1, 2) {
+                        for _ in 0..deferred {
+                            ops.push(cont(0, 4097));
+                        }
+                        deferred = 0;
+                    }
                 }
             }
         }
@@ -1622,12 +1722,19 @@ pub mod gen {
                 if !c.is_empty() {
                     let s = *rng.pick(&c);
                     let fid = streams[s].0;
-                    let nfrag = rng.usize_in(2, 4);
-                    let len = rng.usize_in(nfrag * 2, 300);
+                    let retransmit = rng.chance(1, 2);
+                    let nfrag = if retransmit { streams[s].2 } else { rng.usize_in(2, 4) };
+                    let len = if retransmit { streams[s].1 } else { rng.usize_in(nfrag * 2, 300) };
                     maxlen = maxlen.max(len);
                     left[s] = 0;
                     order_in_flights.retain(|x| *x != s);
-                    streams.push((fid, len, nfrag, label(rng, false), ptype(rng), rng.next()));
+                    if retransmit {
+                        // the abandoned PDU is sent again from its start: same label, protocol type, length, content
+                        let old = streams[s];
+                        streams.push(old);
+                    } else {
+                        streams.push((fid, len, nfrag, label(rng, false), ptype(rng), rng.next()));
+                    }
                     left.push(nfrag);
                     started.push(false);
                     rem.push(len);
